@@ -395,15 +395,22 @@ func c20HistoryCase(t *testing.T, out *vfOut, r *vfRand, dir, kind string, files
 		fitems[i] = c20CoqFile(f)
 		counts[i] = len(f)
 	}
+	metaWrap, metaDesc := c20MetaOf(paths...)
+	if metaDesc != nil {
+		cls["meta-"+c20CurMeta.kind] = true
+	}
 	c := vfCase{
-		Coq: vfApp("C20.CReader", vfZ(maxEntrySize), vfZ(bufferSize), vfList("list (Z * Z)", fitems),
-			vfList("C20.rop", ops)),
+		Coq: metaWrap(vfApp("C20.CReader", vfZ(maxEntrySize), vfZ(bufferSize), vfList("list (Z * Z)", fitems),
+			vfList("C20.rop", ops))),
 		Nontrivial: n > 0,
 		MonitorOK:  len(mon.msgs) == 0,
 		MonitorMsg: strings.Join(mon.msgs, "; "),
 		FindingKey: mon.key,
 		Desc: map[string]any{"kind": "history/" + kind, "records_per_file_oldest_first": counts,
 			"first_stamp": c20FirstStamp(all), "history": hist},
+	}
+	if metaDesc != nil {
+		c.Desc.(map[string]any)["metadata"] = metaDesc
 	}
 	if mon.failedAt >= 0 && mon.failedAt < len(hist) {
 		// the monitors are prefix-closed: the history up to the first failing
